@@ -390,8 +390,16 @@ def run(ctx: Ctx) -> int:
         F = {"metadata_type": "add_cpp_function", "name": "TwoArg", "include_files": [], "arguments": ["a", "b"], "code": ["auto result = a + b;"], "return_type": "double"}
         M = {"metadata_type": "add_cpp_function", "name": "OneArgM", "include_files": [], "arguments": ["a"], "code": ["auto result = a;"], "return_type": "double", "method_object": "xo",
              "instance_object": "X"}
-        for name, tmpl, _ in REFUSALS:
-            q = f"ds.SelectMany(lambda e: e.{C}('A')).Select(lambda j: {tmpl.format(F='TwoArg', M='OneArgM')})"
+        # every form on a receiver that is a variable, and on one that is an EXPRESSION when the plug-ins are resolved
+        # (`x.First()` put in the place of `j` by the simplifier; an indexed collection)
+        forms = [(name, tmpl, "var") for name, tmpl, _ in REFUSALS]
+        forms += [(name + "_on_expression_receiver", tmpl, "expr") for name, tmpl, _ in REFUSALS if "j.{" in tmpl or "j.get" in tmpl]
+        forms += [(name + "_on_indexed_receiver", tmpl.replace("j.", f"e.{C}('A')[0].").replace("(j.pt(), j.eta())", "(1.0, 2.0)"), "event") for name, tmpl, _ in REFUSALS if "j.{M}" in tmpl or "j.get" in tmpl]
+        for name, tmpl, where in forms:
+            body = tmpl.format(F='TwoArg', M='OneArgM')
+            q = {"var": f"ds.SelectMany(lambda e: e.{C}('A')).Select(lambda j: {body})",
+                 "expr": f"ds.Select(lambda e: e.{C}('A').First()).Select(lambda j: {body})",
+                 "event": f"ds.Select(lambda e: {body})"}[where]
             if "getAttributeFloat" in q and backend != "atlas":
                 continue
             IO = {"metadata_type": "add_cpp_function", "name": "IOnly", "include_files": [], "arguments": ["f"], "code": ["auto result = f * 1000.0;"], "return_type": "double", "instance_object": "X"}
